@@ -201,7 +201,10 @@ def toidentifier(value):
             return "neginf"
         if numpy.isnan(value):
             return "nan"
-        return value.dtype.kind + "0x" + "".join(f"{b:02x}" for b in value.tobytes()[::-1])
+        # use only the bytes that carry the value: longdouble has padding bytes of unspecified content
+        fi = numpy.finfo(value.dtype)
+        nbytes = (1 + fi.nexp + fi.nmant + 7) // 8
+        return value.dtype.kind + "0x" + "".join(f"{b:02x}" for b in value.tobytes()[:nbytes][::-1])
     elif isinstance(value, numpy.complexfloating):
         return value.dtype.kind + toidentifier(value.real) + toidentifier(value.imag)
     else:
